@@ -39,8 +39,23 @@ def collect(w, wid):
             'tasks': tasks}
 
 
+class FrozenClock(object):
+    """every reading falls into the same second (timestamps are stored
+    with one-second granularity: events of one second are indistinguishable
+    by time)"""
+
+    def __new__(cls):
+        from vt.world import ConcreteClock
+
+        class _F(ConcreteClock):
+            def now(self):
+                self.readings.append(self.t)
+                return self.t
+        return _F()
+
+
 def one_run(text, shape, sig, preemptions, outcomes, guards, evict=False,
-            defer=False, sym_ids=False):
+            defer=False, sym_ids=False, update=None, clock=None):
     from vt.world import World
     from vt.explorer import Explorer
     from mistral import expressions
@@ -50,19 +65,30 @@ def one_run(text, shape, sig, preemptions, outcomes, guards, evict=False,
 
     def stub(e, c):
         return holder['ex'].expr_stub(real_eval)(e, c)
-    w = World([text], expr_stub=stub, defer_post_tx=defer, sym_ids=sym_ids)
+    w = World([text], expr_stub=stub, defer_post_tx=defer, sym_ids=sym_ids,
+              clock=clock)
     with w:
         ex = Explorer(w, sig, preemptions=preemptions, outcomes=outcomes,
                       guards=guards)
         holder['ex'] = ex
         wid = w.start('wf')
         ex.check_invariants()
-        if evict:
+        if evict or update:
             real_deliver = ex.deliver
+            st = {'n': 0}
 
             def deliver(ev, *a, **k):
-                # an engine restart / cache eviction between any two events
-                spec_parser.clear_caches()
+                st['n'] += 1
+                if update and st['n'] == update[0]:
+                    # the operator updates the DEFINITION while the run is
+                    # in flight: the execution keeps the spec it started with
+                    from mistral.services import workflows as wf_service
+                    wf_service.update_workflows(update[1])
+                    reach('definition-updated')
+                if evict:
+                    # an engine restart / cache eviction between any two
+                    # events
+                    spec_parser.clear_caches()
                 return real_deliver(ev, *a, **k)
             ex.deliver = deliver
         ex.run()
@@ -70,16 +96,24 @@ def one_run(text, shape, sig, preemptions, outcomes, guards, evict=False,
     return res, ex, w
 
 
-def _c02_e_case(shape, text, preemptions, evict, defer, sym_ids=False):
+def _c02_e_case(shape, text, preemptions, evict, defer, sym_ids=False,
+                update_to=None):
     def case():
         sig = 'C02.E:%s' % shape
         outcomes = {}
         guards = dict(FIXED_GUARDS.get(shape, {}))
+        update = clock = None
+        if update_to:
+            update = (choice('update_at', [1, 2, 3, 4]), update_to)
+            if choice('clock', ['ticking', 'same-second']) == 'same-second':
+                clock = FrozenClock()
+                reach('same-second')
         # run A: explored order (+ optional cache eviction / deferred
-        # post-commit batches / solver-chosen id order)
+        # post-commit batches / solver-chosen id order / a definition
+        # update in flight)
         a, ex_a, w_a = one_run(text, shape, sig, preemptions, outcomes,
                                guards, evict=evict, defer=defer,
-                               sym_ids=sym_ids)
+                               sym_ids=sym_ids, update=update, clock=clock)
         # run B: FIFO delivery, warm caches, same outcomes and guards
         b, ex_b, w_b = one_run(text, shape, sig + ':fifo', 0, outcomes,
                                guards)
@@ -126,7 +160,10 @@ def _c02_e_case(shape, text, preemptions, evict, defer, sym_ids=False):
     bounds={'quick': 'shapes fork_join, join_2_of_3_mixed, conditional, '
                      'join_fed_by_error, data_flow, data_flow_3; outcomes / '
                      'guards symbolic; run A = any order with <= 1 '
-                     'out-of-order delivery, in the variants {plain, spec '
+                     'out-of-order delivery (plus: the workflow DEFINITION '
+                     'is updated to a different routing before the 1st-4th '
+                     'delivery, with a ticking clock or everything inside '
+                     'one second), in the variants {plain, spec '
                      'caches dropped before every event, post-commit batches '
                      'deferred as separate events}; run B = FIFO; compared: '
                      'final state, output, every task\'s state, published, '
@@ -165,6 +202,14 @@ def c02_e(ctx):
                        needed=['two-runs'])
     yield Case('fork_join/evict', _c02_e_case(
         'fork_join', shapes.FORK_JOIN, 1, True, True), needed=['two-runs'])
+    # the definition is updated (different routing) while the run is in
+    # flight, caches are dropped before every event, and everything may
+    # happen within one second
+    v2 = shapes.CHAIN.replace('      on-success: b\n', '      on-success: d\n')
+    assert v2 != shapes.CHAIN
+    yield Case('chain/definition-updated', _c02_e_case(
+        'chain', shapes.CHAIN, 0, True, False, update_to=v2),
+        needed=['two-runs', 'definition-updated', 'same-second'])
 
 
 # ---------------------------------------------------------------------------
